@@ -356,7 +356,9 @@ def any_trans_writer(ctx, R, f, evs):
         while v[0] == 'after':
             chain.append(v[1])
             v = v[3]
-        ok = len(chain) == 2 and is_call(chain[0], 'set_state_ntrans') and ntrans_expr(chain[0][2][1]) and is_call(chain[1], 'set_final_state') and chain[1][2][1][0] == 'field' and chain[1][2][1][2] == 'is_final' and is_call(v, 'StateAnyTrans::new')
+        sn = [c for c in chain if is_call(c, 'set_state_ntrans')]
+        sf = [c for c in chain if is_call(c, 'set_final_state')]
+        ok = len(chain) == 2 and len(sn) == 1 and len(sf) == 1 and ntrans_expr(sn[0][2][1]) and sf[0][2][1][0] == 'field' and sf[0][2][1][2] == 'is_final' and is_call(v, 'StateAnyTrans::new')
         ctx.check(R['state'], ok, 'any:state-byte', 'the any-trans state byte must be new() + final flag(node.is_final) + ntrans(node.trans.len()): %s' % [fmt(c)[:60] for c in chain], fn=f)
 
 
@@ -482,7 +484,8 @@ def one_trans_writer(ctx, R, f, evs):
         return is_call(e, 'Option::<T>::is_none') and is_call(e[2][0], 'common_input')
     spec = [
         ('output', lambda ev: ev.kind() == 'pack_uint' and value_of(ev.args[1], lambda x: x[0] == 'field' and x[2] == 'out') and has_guard(ev, g_out_zero, 0)),
-        ('delta', lambda ev: ev.kind() == 'pack_delta' and ev.args[1][0] == 'param' and ev.args[2][0] == 'field' and ev.args[2][2] == 'addr' and not any(g_out_zero(e) for e, v in ev.guards)),
+        ('delta', lambda ev: ((ev.kind() == 'pack_delta') or (ev.kind() == 'pack_delta_in' and is_call(ev.args[3], 'pack_delta_size') and ev.args[3][2] == ev.args[1:3])) and
+            ev.args[1][0] == 'param' and ev.args[2][0] == 'field' and ev.args[2][2] == 'addr' and not any(g_out_zero(e) for e, v in ev.guards)),
         ('sizes', lambda ev: ev.kind() == 'write_all' and array1(ev.args[1]) is not None and is_call(array1(ev.args[1]), 'PackSizes::encode')),
         ('input', lambda ev: ev.kind() == 'write_all' and array1(ev.args[1]) is not None and array1(ev.args[1])[0] == 'field' and array1(ev.args[1])[2] == 'inp' and has_guard(ev, g_nocommon, 1)),
         ('state', lambda ev: ev.kind() == 'write_all' and array1(ev.args[1]) is not None and array1(ev.args[1])[0] == 'field' and array1(ev.args[1])[2] == '0' and not any(g_nocommon(e) for e, v in ev.guards)),
@@ -495,7 +498,7 @@ def one_trans_writer(ctx, R, f, evs):
         for p in explore(f, max_visits=1, havoc=True):
             for (k, bid, callee, args, t) in path_calls(p):
                 if isinstance(callee, str) and callee.endswith('set_transition_pack_size'):
-                    ok_t = args[1][0] == 'okof' and is_call(args[1][1], 'pack_delta')
+                    ok_t = (args[1][0] == 'okof' and is_call(args[1][1], 'pack_delta')) or (is_call(args[1], 'pack_delta_size') and args[1][2][0][0] == 'param' and args[1][2][1][0] == 'field' and args[1][2][1][2] == 'addr')
                 if isinstance(callee, str) and callee.endswith('set_output_pack_size'):
                     a = args[1]
                     if a == ('const', 0):
